@@ -277,8 +277,16 @@ class Run:
 
     def finish(self):
         self.cov["distinct_nontrivial"] = len(self.distinct)
+        # the level is the one MANIFEST.json claims for this property; a proof-level claim needs registered theorems
+        try:
+            man = json.load(open(os.path.join(VERIF, "MANIFEST.json")))
+            claimed = {c["property_id"]: c["level_claimed"]["category"] for c in man["checks"]}.get(self.prop)
+        except Exception:
+            claimed = None
+        if claimed:
+            self.level = claimed
         if not self.cov.get("obligations"):
-            # no theorem registered for this property (yet): the run is what it is, an exploration
+            # no theorem registered for this property: the run is what it is, an exploration
             self.level = "exploration"
             for k in ("obligations", "discharged", "checker_cmd", "trusted_base"):
                 self.cov.pop(k, None)
